@@ -4,6 +4,7 @@ import (
 	"fmt"
 	"go/token"
 	"go/types"
+	"sort"
 	"strings"
 
 	"golang.org/x/tools/go/ssa"
@@ -39,6 +40,134 @@ func seqString(s []SeqElem) string {
 		parts[i] = e.String()
 	}
 	return "[" + strings.Join(parts, ", ") + "]"
+}
+
+// ---- specialisation on a boolean input ----------------------------------------------------------------
+//
+// assume: truth values assumed for conditions, keyed by their descriptor (so that the assumption follows a
+// flag into helpers, where it is a bound parameter). Under an assumption the successors not taken at every
+// branch on such a condition are dead; blocks reachable only through dead edges are dead; a phi with a
+// single live incoming edge is that edge.
+var assume = map[string]bool{}
+
+func assumeSig() string {
+	if len(assume) == 0 {
+		return ""
+	}
+	var ks []string
+	for k, v := range assume {
+		ks = append(ks, fmt.Sprintf("%s=%v", k, v))
+	}
+	sort.Strings(ks)
+	return strings.Join(ks, ";")
+}
+
+var deadCache = map[string]map[*ssa.BasicBlock]bool{}
+
+// deadEdge: the edge b -> b.Succs[k] is not taken under the current assumptions.
+func deadEdge(b *ssa.BasicBlock, k int) bool {
+	if len(assume) == 0 {
+		return false
+	}
+	iff, ok := b.Instrs[len(b.Instrs)-1].(*ssa.If)
+	if !ok {
+		return false
+	}
+	cond := iff.Cond
+	neg := false
+	for {
+		if u, ok := cond.(*ssa.UnOp); ok && u.Op == token.NOT {
+			cond, neg = u.X, !neg
+			continue
+		}
+		break
+	}
+	v, known := assume[desc(cond)]
+	if !known {
+		return false
+	}
+	if neg {
+		v = !v
+	}
+	// Succs[0] is taken when the condition is true
+	return (k == 0 && !v) || (k == 1 && v)
+}
+
+func deadBlocks(fn *ssa.Function) map[*ssa.BasicBlock]bool {
+	if len(assume) == 0 || fn == nil || fn.Blocks == nil {
+		return nil
+	}
+	key := fmt.Sprintf("%p|%s|%s", fn, bindingSig(fn), assumeSig())
+	if d, ok := deadCache[key]; ok {
+		return d
+	}
+	live := map[*ssa.BasicBlock]bool{fn.Blocks[0]: true}
+	work := []*ssa.BasicBlock{fn.Blocks[0]}
+	for len(work) > 0 {
+		b := work[len(work)-1]
+		work = work[:len(work)-1]
+		for k, s := range b.Succs {
+			if deadEdge(b, k) || live[s] {
+				continue
+			}
+			live[s] = true
+			work = append(work, s)
+		}
+	}
+	dead := map[*ssa.BasicBlock]bool{}
+	for _, b := range fn.Blocks {
+		if !live[b] {
+			dead[b] = true
+		}
+	}
+	deadCache[key] = dead
+	return dead
+}
+
+// livePhiEdge: under the current assumptions exactly one incoming edge of the phi can be taken.
+func livePhiEdge(phi *ssa.Phi) (ssa.Value, bool) {
+	if len(assume) == 0 {
+		return nil, false
+	}
+	b := phi.Block()
+	dead := deadBlocks(b.Parent())
+	var v ssa.Value
+	n := 0
+	for i, p := range b.Preds {
+		if dead[p] {
+			continue
+		}
+		// the particular edge p -> b
+		edgeDead := false
+		for k, s := range p.Succs {
+			if s == b && deadEdge(p, k) {
+				// dead only if no other live edge from p leads to b
+				other := false
+				for k2, s2 := range p.Succs {
+					if k2 != k && s2 == b && !deadEdge(p, k2) {
+						other = true
+					}
+				}
+				edgeDead = !other
+			}
+		}
+		if edgeDead {
+			continue
+		}
+		n++
+		v = phi.Edges[i]
+	}
+	if n == 1 {
+		return v, true
+	}
+	return nil, false
+}
+
+func instrDead(i ssa.Instruction) bool {
+	if len(assume) == 0 || i.Block() == nil {
+		return false
+	}
+	return deadBlocks(i.Block().Parent())[i.Block()]
 }
 
 // seqOf evaluates a slice-typed SSA value to its abstract sequence. ok=false if an idiom is not recognised.
@@ -102,10 +231,42 @@ func seqD(v ssa.Value, depth int, inprog map[ssa.Value]bool) ([]SeqElem, bool) {
 			}
 			return append(append([]SeqElem(nil), base...), tail...), true
 		}
+		// a module-internal helper that builds and returns the slice: evaluate its returns in its own
+		// context, with its parameters described as this call's arguments
+		if g := staticCallee(x); g != nil && inModuleFn(g) && !isBigWrapperFn(g) && g.Blocks != nil && g.Signature.Results().Len() == 1 && !inprog[x] {
+			inprog[x] = true
+			defer delete(inprog, x)
+			var res []SeqElem
+			okAll, n := true, 0
+			bindCall(x, g, func() {
+				dead := deadBlocks(g)
+				for _, r := range returnsOf(g) {
+					if dead[r.Block()] {
+						continue
+					}
+					s, ok := seqD(r.Results[0], depth+1, inprog)
+					if !ok {
+						okAll = false
+						return
+					}
+					if n > 0 && seqString(s) != seqString(res) {
+						okAll = false
+						return
+					}
+					res, n = s, n+1
+				}
+			})
+			if okAll && n > 0 {
+				return res, true
+			}
+		}
 		return []SeqElem{{Kind: "spread", D: desc(x), V: x}}, true
 	case *ssa.MakeSlice:
 		return seqOfMake(x)
 	case *ssa.Phi:
+		if e, ok := livePhiEdge(x); ok {
+			return seqD(e, depth+1, inprog)
+		}
 		if inprog[x] {
 			return []SeqElem{{Kind: "elem", D: "@self", V: x}}, true
 		}
@@ -175,6 +336,16 @@ func seqOfMake(ms *ssa.MakeSlice) ([]SeqElem, bool) {
 			refs = append(refs, referrersOf(phi)...)
 		}
 	}
+	// uses through phis that, under the current assumptions, are this very slice
+	seenPhi := map[*ssa.Phi]bool{}
+	for k := 0; k < len(refs); k++ {
+		if phi, ok := refs[k].(*ssa.Phi); ok && !seenPhi[phi] {
+			seenPhi[phi] = true
+			if e, ok := livePhiEdge(phi); ok && (e == ssa.Value(ms) || isPhiOf(e, ms, seenPhi)) {
+				refs = append(refs, referrersOf(phi)...)
+			}
+		}
+	}
 	for _, r := range refs {
 		switch u := r.(type) {
 		case *ssa.IndexAddr:
@@ -184,6 +355,9 @@ func seqOfMake(ms *ssa.MakeSlice) ([]SeqElem, bool) {
 			}
 			for _, rr := range referrersOf(u) {
 				if st, ok := rr.(*ssa.Store); ok && st.Addr == u {
+					if instrDead(st) {
+						continue
+					}
 					if idx.S["#i"] == 1 {
 						// tmp[i+k] = f(X[i]) in an index loop over X: fills [k, k+len(X))
 						d := desc(st.Val)
@@ -214,6 +388,9 @@ func seqOfMake(ms *ssa.MakeSlice) ([]SeqElem, bool) {
 			}
 			for _, rr := range referrersOf(u) {
 				if c, ok := rr.(*ssa.Call); ok && isCallTo(c, "builtin:copy") && c.Call.Args[0] == u {
+					if instrDead(c) {
+						continue
+					}
 					src := c.Call.Args[1]
 					// copy fills min(len(dst), len(src)); require len(dst) == len(src)
 					if hi.add(lo.scale(-1)).String() != affSym("len("+desc(src)+")").String() {
@@ -320,4 +497,13 @@ func loopCollection(d string) string {
 		j--
 	}
 	return d[j:i]
+}
+
+func isPhiOf(v ssa.Value, ms *ssa.MakeSlice, seen map[*ssa.Phi]bool) bool {
+	phi, ok := v.(*ssa.Phi)
+	if !ok || !seen[phi] {
+		return false
+	}
+	e, ok := livePhiEdge(phi)
+	return ok && e == ssa.Value(ms)
 }
